@@ -183,3 +183,19 @@ func init() {
 	addMutant(Mutant{Name: "c29-builder-flag", Property: "C29", File: "ypathgen/pathgen.go",
 		Old: "\tfor i := 0; i != keyN; i++ {\n\t\tkeyEntryStrs = append(keyEntryStrs, fmt.Sprintf(`\"%s\": \"*\"`, keyParams[i].name))\n\t}\n\tfieldData.KeyEntriesStr = strings.Join(keyEntryStrs, \", \")\n\n\t// There are no initial", New: "\tfor i := 0; i != keyN; i++ {\n\t\tkeyEntryStrs = append(keyEntryStrs, fmt.Sprintf(`\"%s\": \"*\"`, keyParams[i].name))\n\t}\n\tfieldData.KeyEntriesStr = strings.Join(keyEntryStrs[:keyN/2], \", \")\n\n\t// There are no initial", Expect: "KeyEntriesStr#"})
 }
+
+func init() {
+	// C27
+	addMutant(Mutant{Name: "c27-names-by-dirpath", Property: "C27", File: "ygen/ir.go",
+		Old: "\tfor p, d := range ir.Directories {\n\t\tdirNames[p] = d.Name\n\t}", New: "\tfor _, d := range ir.Directories {\n\t\tdirNames[d.Path] = d.Name\n\t}", Expect: "names-keyed-by-directory-key"})
+	addMutant(Mutant{Name: "c27-toplevel-filter", Property: "C27", File: "ygen/schemaparse.go",
+		Old: "\t\tfor _, ch := range util.Children(m) {\n\t\t\tif _, ex := rootEntry.Dir[ch.Name]; ex {", New: "\t\tfor _, ch := range util.Children(m) {\n\t\t\tif ch.Kind != yang.DirectoryEntry {\n\t\t\t\tcontinue\n\t\t\t}\n\t\t\tif _, ex := rootEntry.Dir[ch.Name]; ex {", Expect: "no-filter"})
+	addMutant(Mutant{Name: "c27-config-normalised", Property: "C27", File: "ygen/schemaparse.go",
+		Old: "\tif e.IsDir() {\n\t\te.Annotation[\"schemapath\"] = e.Path()\n\t}\n}", New: "\tif e.IsDir() {\n\t\te.Annotation[\"schemapath\"] = e.Path()\n\t}\n\tif e.Config == yang.TSUnset {\n\t\te.Config = yang.TSTrue\n\t}\n}", Expect: "writes-only-description-annotation"})
+	addMutant(Mutant{Name: "c27-parent-only-dirs", Property: "C27", File: "ygot/schema.go",
+		Old: "\te.Parent = parent\n", New: "\tif e.IsDir() {\n\t\te.Parent = parent\n\t}\n", Expect: "rebuildSchemaMap:parent"})
+	addMutant(Mutant{Name: "c27-gzip-no-close", Property: "C27", File: "ygen/schemaparse.go",
+		Old: "\tgzw.Flush()\n\tgzw.Close()\n", New: "\tgzw.Flush()\n", Expect: "WriteGzippedByteSlice:complete"})
+	addMutant(Mutant{Name: "c27-runtime-reads-node", Property: "C27", File: "util/yang.go",
+		Old: "func IsConfig(e *yang.Entry) bool {\n\treturn !e.ReadOnly()", New: "func IsConfig(e *yang.Entry) bool {\n\tif e.Node != nil && e.Node.Kind() == \"notification\" {\n\t\treturn false\n\t}\n\treturn !e.ReadOnly()", Expect: "util.IsConfig:entry-fields"})
+}
